@@ -374,6 +374,11 @@ class Ctx:
             json.dump(ev, f, indent=1, default=str)
         for h in self.known_hits:
             print(f"KNOWN-FINDING: property={self.prop} {h['id']}: {h['what']}")
+        # every listed finding of the property gets its line, also when this run's inputs did not reproduce it
+        hit_ids = {h["id"] for h in self.known_hits}
+        for k in self.known:
+            if k.get("property") == self.prop and k.get("status", "known") == "known" and k["id"] not in hit_ids:
+                print(f"KNOWN-FINDING: property={self.prop} {k['id']}: {k['what_fails']} [listed; not reproduced by the inputs of this run]")
         # a failed obligation with no concrete failing input is still a violation
         failed = [o for o in self.obligations if not o["ok"]]
         if failed and not any(v["found_input"] for v in self.violations):
